@@ -10,9 +10,15 @@ import (
 // trees and operation orders, equivalence of With() with call-site attributes, and a write-set
 // monitor showing that deriving never stores into pre-existing objects.
 
-type c03Rec struct{ lines []string }
+type c03Rec struct {
+	lines []string
+	freed int // Write calls whose argument lives in a buffer that is already back in the pool
+}
 
 func (w *c03Rec) Write(p []byte) (int, error) {
+	if vxInPool(p) {
+		w.freed++
+	}
 	w.lines = append(w.lines, string(p))
 	return len(p), nil
 }
@@ -226,6 +232,10 @@ func H_C03_writeset() {
 	n := vxFrameWrites()
 	vxAssert(n == 0, "C03: deriving a logger stored into an object that existed before (parent state or its pre-rendered bytes)")
 	vxAssert(child != parent, "C03: derived logger is the parent itself")
+	// used concurrently: a logger of the tree must not hand its line to Write from a buffer it has already returned
+	// to the pool - a sibling formatting a record at that moment would be writing into it
+	child.Info("m", "k", 1)
+	vxAssert(w.freed == 0, "C03: a record was handed to Write from a buffer already returned to the pool (a sibling logging concurrently would overwrite it)")
 	vxReach("derivation monitored")
 }
 
